@@ -9,6 +9,10 @@ evaluates the property's own predicates on the implementation's outputs with ind
   objects     random NON-physical objects of the four types: to_var, generate_from_var (own and overridden flag), the
               module-level convert_* functions, the static stacked<->var conversions, calc_gradient, malformed variable
               vectors (error branches)
+  setq_history the same predicates over HISTORIES of one SetQOperations object: query everything, edit the set through its setters or
+              in the lists its properties hand out (same / different number of operations, same / different variable counts), query
+              everything again in a shuffled order - against the harness's own record of the current contents, the model on the
+              current sizes and a newly constructed set
   setq        SetQOperations with random mixes: total<->local index maps, var_total layout, set_qoperations_from_var_total
   tomography  num_variables of StandardQst / StandardPovmt / StandardQpt / StandardQmpt
 """
@@ -584,140 +588,330 @@ def sub_objects(ctx):
 
 
 # ------------------------------------------------------------------ SetQOperations
-def chk_setq(ctx, case):
-    from quara.objects.qoperations import SetQOperations
+def nvars(ty, d, m, flag):
+    """independent closed form: number of free entries of an object"""
+    n = d * d
+    return total_size(ty, d, m) - ([1, n, n, n][ty] if flag else 0)
+
+
+def build_ops(rng, groups):
+    return [[mk_obj(ty, d, m, bool(flag), rand_vals(rng, total_size(ty, d, m))) for d, m, flag in grp] for ty, grp in enumerate(groups)]
+
+
+def set_info(sq, t):
+    info = sq.local_info_from_index_var_total(t)
+    return [NAMES.index(info["mode"]), int(info["index_operations"]), int(info["index_var_local"])]
+
+
+def verify_set(ctx, sub, sq, groups, objs, rng, rep, tag="", order=None, fresh=None):
+    """every SetQOperations predicate on the set `sq` AS IT IS NOW.  What the set should contain is the harness's own record
+    (`groups` = descriptors [d, m, flag], `objs` = the objects, lists NOT shared with sq); expectations are computed from that record
+    (closed-form sizes, concatenated to_var) and from the Coq model evaluated on the current descriptors - never from earlier answers
+    of sq.  `fresh` = a newly constructed SetQOperations with the same contents (history independence).  `order` = order of the phases;
+    the index phases call nothing but the index conversions, so a stale cache cannot be refreshed by an unrelated query first."""
     mdl = ctx.get_model()
-    rng = random.Random(case["seed"])
-    groups = case["ops"]             # four lists (state, gate, povm, mprocess) of [d, m, flag]
-    objs = []
-    for ty, grp in enumerate(groups):
-        lst = []
-        for d, m, flag in grp:
-            lst.append(mk_obj(ty, d, m, bool(flag), rand_vals(rng, total_size(ty, d, m))))
-        objs.append(lst)
-    sq = SetQOperations(states=objs[0], gates=objs[1], povms=objs[2], mprocesses=objs[3])
-    sizes = [[len(o.to_var()) for o in lst] for lst in objs]
+    sizes = [[nvars(ty, d, m, bool(flag)) for d, m, flag in grp] for ty, grp in enumerate(groups)]
     blocks = []
     for sz in sizes:
         blocks += [len(sz)] + sz
     desc = []
     for grp in groups:
         desc += [3 * len(grp)] + [int(x) for t in grp for x in t]
-    rep = dict(case)
     nops = sum(len(g) for g in groups)
-    lab = "ops=%d" % nops
+    total = sum(sum(sz) for sz in sizes)
+    ksz = [sum(sz) for sz in sizes]
+    efim = {"state": 0, "gate": ksz[0], "povm": ksz[0] + ksz[1], "mprocess": ksz[0] + ksz[1] + ksz[2]}
+    evt = np.concatenate([np.asarray(o.to_var(), dtype=float) for lst in objs for o in lst] + [np.zeros(0)])
+    key0 = (rep.get("seed"), tag)
 
     def viol(site, sig, what):
-        ctx.violation("setq", "SetQOperations." + site, sig, what + " (ops %s)" % groups, rep)
+        ctx.violation(sub, "SetQOperations." + site, sig, what + " (ops %s%s)" % (groups, ("; history: " + tag) if tag else ""), rep)
 
-    total = int(sq.size_var_total())
-    fim = sq._get_operation_mode_to_total_index_map()
-    ms = [int(v) for v in mdl.call("c03.set_sizes", desc)]
-    ctx.count("setq", key=("sizes", case["seed"]), nontrivial=nops >= 2, label=lab)
-    if total != sum(sum(s) for s in sizes):
-        viol("size_var_total", "neq-sum-of-sizes", "size_var_total %d is not the sum of the operations' variable counts %s" % (total, sizes)); return
-    if [total, int(fim["gate"]), int(fim["povm"]), int(fim["mprocess"])] != ms:
-        viol("size_var_total", "model-mismatch", "sizes / first indices differ: impl %s model %s" % ([total, fim], ms))      # the index predicates below still run
-    vt = np.asarray(sq.var_total(), dtype=float)
-    if len(vt) != total:
-        viol("var_total", "length", "len(var_total) %d != size_var_total %d" % (len(vt), total)); return
-    # --- total -> local -> total on every index (sampled when large), and the entry it points at
-    ts = list(range(total)) if total <= 400 else sorted(set(rng.randrange(total) for _ in range(300)) | set(b for b in (fim["gate"], fim["povm"], fim["mprocess"], fim["gate"] - 1, fim["povm"] - 1, fim["mprocess"] - 1, 0, total - 1) if 0 <= b < total))
-    for t in ts:
-        try:
-            info = sq.local_info_from_index_var_total(t)
-        except (IndexError, UnboundLocalError) as e:
-            viol("local_info_from_index_var_total", "raises-inside-range", "t=%d with size_var_total %d raises %s" % (t, total, type(e).__name__)); return
-        k = NAMES.index(info["mode"]); i = int(info["index_operations"]); j = int(info["index_var_local"])
-        mm = [int(v) for v in mdl.call("c03.local_from_total", [t] + blocks)]
-        ctx.count("setq", key=(case["seed"], "t", t), nontrivial=nops >= 2, label="total->local")
-        if [k, i, j] != mm:
-            viol("local_info_from_index_var_total", "model-mismatch", "t=%d impl %s model %s" % (t, [k, i, j], mm)); return
-        if not (0 <= i < len(objs[k]) and 0 <= j < sizes[k][i]):
-            viol("local_info_from_index_var_total", "out-of-range-local", "t=%d -> %s" % (t, info)); return
-        back = int(sq.index_var_total_from_local_info(info["mode"], i, j))
-        if back != t:
-            viol("index_var_total_from_local_info", "not-inverse", "t=%d -> %s -> %d" % (t, info, back)); return
-        if float(objs[k][i].to_var()[j]) != float(vt[t]):
-            viol("local_info_from_index_var_total", "points-at-wrong-variable", "var_total[%d] = %s but %s[%d].to_var()[%d] = %s" % (t, vt[t], info["mode"], i, j, objs[k][i].to_var()[j])); return
-    # --- local -> total on every (kind, operation, local index) (sampled when large)
-    triples = [(k, i, j) for k in range(4) for i in range(len(sizes[k])) for j in range(sizes[k][i])]
-    if len(triples) > 400:
-        triples = rng.sample(triples, 300)
-    seen = set()
-    for k, i, j in triples:
-        t = int(sq.index_var_total_from_local_info(NAMES[k], i, j))
-        tm = int(mdl.call("c03.total_from_local", [k, i, j] + blocks)[0])
-        ctx.count("setq", key=(case["seed"], "l", k, i, j), nontrivial=nops >= 2, label="local->total")
-        if t != tm:
-            viol("index_var_total_from_local_info", "model-mismatch", "(%s,%d,%d): impl %d model %d" % (NAMES[k], i, j, t, tm)); return
-        if not (0 <= t < total) or t in seen:
-            viol("index_var_total_from_local_info", "not-injective-into-range", "(%s,%d,%d) -> %d" % (NAMES[k], i, j, t)); return
-        seen.add(t)
-        try:
-            info = sq.local_info_from_index_var_total(t)
-        except (IndexError, UnboundLocalError) as e:
-            viol("local_info_from_index_var_total", "raises-inside-range", "(%s,%d,%d) -> %d with size_var_total %d raises %s" % (NAMES[k], i, j, t, total, type(e).__name__)); return
-        if (NAMES.index(info["mode"]), int(info["index_operations"]), int(info["index_var_local"])) != (k, i, j):
-            viol("local_info_from_index_var_total", "not-inverse", "(%s,%d,%d) -> %d -> %s" % (NAMES[k], i, j, t, info)); return
-    # --- error branches
-    for t in (-1, total, total + 5):
-        try:
-            sq.local_info_from_index_var_total(t); impl = "ok"
-        except IndexError:
-            impl = "IndexError"
-        stt, val = mdl.try_call("c03.local_from_total", [t] + blocks)
-        ctx.count("setq", key=(case["seed"], "oor", t), nontrivial=False, label="total-out-of-range")
-        if not (impl == "IndexError" and stt == "err" and val == 3):
-            viol("local_info_from_index_var_total", "error-branch", "t=%d (size %d): impl %s model %s %s" % (t, total, impl, stt, val))
-    for k in range(4):
-        for i in (len(sizes[k]), len(sizes[k]) + 1, -1):
+    def ph_sizes():
+        got = int(sq.size_var_total())
+        fim = sq._get_operation_mode_to_total_index_map()
+        ms = [int(v) for v in mdl.call("c03.set_sizes", desc)]
+        ctx.count(sub, key=("sizes",) + key0, nontrivial=nops >= 2, label="ops=%d" % nops)
+        if len(evt) != total or [[len(o.to_var()) for o in lst] for lst in objs] != sizes:
+            viol("size_var_total", "neq-sum-of-sizes", "the operations' to_var lengths %s are not the closed-form variable counts %s" % ([[len(o.to_var()) for o in lst] for lst in objs], sizes)); return
+        if got != total:
+            viol("size_var_total", "neq-sum-of-sizes", "size_var_total %d is not the sum of the current operations' variable counts %s" % (got, sizes))
+        if [total, efim["gate"], efim["povm"], efim["mprocess"]] != ms:
+            viol("size_var_total", "model-mismatch", "closed-form sizes %s differ from the model %s" % ([total, efim], ms))
+        if {k: int(v) for k, v in fim.items()} != efim:
+            viol("_get_operation_mode_to_total_index_map", "wrong-first-index", "first indices %s, the current contents give %s" % (dict(fim), efim))
+        vt = np.asarray(sq.var_total(), dtype=float)
+        if len(vt) != total:
+            viol("var_total", "length", "len(var_total) %d != %d" % (len(vt), total))
+        elif not np.array_equal(vt, evt):
+            viol("var_total", "layout", "var_total is not the concatenation states, gates, povms, mprocesses of the current operations' to_var()")
+        if fresh is not None and (int(fresh.size_var_total()) != got or not np.array_equal(np.asarray(fresh.var_total(), dtype=float), vt)):
+            viol("var_total", "differs-from-fresh-set", "size / var_total differ from a newly constructed set with the same contents")
+
+    def ph_t2l():
+        bnd = [b for b in (efim["gate"], efim["povm"], efim["mprocess"], efim["gate"] - 1, efim["povm"] - 1, efim["mprocess"] - 1, 0, total - 1) if 0 <= b < total]
+        ts = list(range(total)) if total <= 400 else sorted(set(rng.randrange(total) for _ in range(300)) | set(bnd))
+        for t in ts:
             try:
-                t = int(sq.index_var_total_from_local_info(NAMES[k], i, 0)); impl = ("ok", t)
+                k, i, j = got = set_info(sq, t)
+            except (IndexError, UnboundLocalError) as e:
+                viol("local_info_from_index_var_total", "raises-inside-range", "t=%d with %d variables raises %s" % (t, total, type(e).__name__)); return
+            mm = [int(v) for v in mdl.call("c03.local_from_total", [t] + blocks)]
+            ctx.count(sub, key=key0 + ("t", t), nontrivial=nops >= 2, label="total->local")
+            if got != mm:
+                viol("local_info_from_index_var_total", "model-mismatch", "t=%d impl %s model %s" % (t, got, mm))
+            if fresh is not None and got != set_info(fresh, t):
+                viol("local_info_from_index_var_total", "differs-from-fresh-set", "t=%d: %s, a newly constructed set with the same contents says %s" % (t, got, set_info(fresh, t)))
+            if not (0 <= i < len(objs[k]) and 0 <= j < sizes[k][i]):
+                viol("local_info_from_index_var_total", "out-of-range-local", "t=%d -> %s" % (t, got)); return
+            if float(objs[k][i].to_var()[j]) != float(evt[t]):
+                viol("local_info_from_index_var_total", "points-at-wrong-variable", "var_total[%d] = %s but %s[%d].to_var()[%d] = %s" % (t, evt[t], NAMES[k], i, j, objs[k][i].to_var()[j])); return
+            back = int(sq.index_var_total_from_local_info(NAMES[k], i, j))
+            if back != t:
+                viol("index_var_total_from_local_info", "not-inverse", "t=%d -> %s -> %d" % (t, got, back)); return
+            if got != mm:
+                return
+
+    def ph_l2t():
+        triples = [(k, i, j) for k in range(4) for i in range(len(sizes[k])) for j in range(sizes[k][i])]
+        if len(triples) > 400:
+            triples = rng.sample(triples, 300)
+        seen = set()
+        for k, i, j in triples:
+            t = int(sq.index_var_total_from_local_info(NAMES[k], i, j))
+            tm = int(mdl.call("c03.total_from_local", [k, i, j] + blocks)[0])
+            ctx.count(sub, key=key0 + ("l", k, i, j), nontrivial=nops >= 2, label="local->total")
+            if t != tm:
+                viol("index_var_total_from_local_info", "model-mismatch", "(%s,%d,%d): impl %d model %d" % (NAMES[k], i, j, t, tm))
+            if fresh is not None and t != int(fresh.index_var_total_from_local_info(NAMES[k], i, j)):
+                viol("index_var_total_from_local_info", "differs-from-fresh-set", "(%s,%d,%d) -> %d, a newly constructed set with the same contents says %d" % (NAMES[k], i, j, t, int(fresh.index_var_total_from_local_info(NAMES[k], i, j))))
+            if not (0 <= t < total) or t in seen:
+                viol("index_var_total_from_local_info", "not-injective-into-range", "(%s,%d,%d) -> %d" % (NAMES[k], i, j, t)); return
+            seen.add(t)
+            if float(evt[t]) != float(objs[k][i].to_var()[j]):
+                viol("index_var_total_from_local_info", "points-at-wrong-variable", "(%s,%d,%d) -> %d, var_total[%d] = %s but the variable is %s" % (NAMES[k], i, j, t, t, evt[t], objs[k][i].to_var()[j])); return
+            try:
+                got = set_info(sq, t)
+            except (IndexError, UnboundLocalError) as e:
+                viol("local_info_from_index_var_total", "raises-inside-range", "(%s,%d,%d) -> %d with %d variables raises %s" % (NAMES[k], i, j, t, total, type(e).__name__)); return
+            if got != [k, i, j]:
+                viol("local_info_from_index_var_total", "not-inverse", "(%s,%d,%d) -> %d -> %s" % (NAMES[k], i, j, t, got)); return
+            if t != tm:
+                return
+
+    def ph_err():
+        for t in (-1, total, total + 5):
+            try:
+                sq.local_info_from_index_var_total(t); impl = "ok"
             except IndexError:
-                impl = ("err", None)
-            stt, val = mdl.try_call("c03.total_from_local", [k, i, 0] + blocks)
-            ctx.count("setq", key=(case["seed"], "oor-op", k, i), nontrivial=False, label="operation-index-out-of-range-" + stt)
-            if (stt == "err") != (impl[0] == "err") or (stt == "ok" and int(val[0]) != impl[1]):
-                viol("index_var_total_from_local_info", "error-branch", "(%s,%d,0): impl %s model %s %s" % (NAMES[k], i, impl, stt, val))
-    try:
-        sq.index_var_total_from_local_info("effective_lindbladian", 0, 0)
-        viol("index_var_total_from_local_info", "error-branch", "unsupported mode accepted")
-    except ValueError:
-        pass
-    # --- set_qoperations_from_var_total
-    sds = [float(np.sqrt(x)) for x in (2, 3, 4, 6)]
-    v = np.array(rand_vals(rng, total))
-    new = sq.set_qoperations_from_var_total(v)
-    newops = [new.states, new.gates, new.povms, new.mprocesses]
-    st_new = np.concatenate([np.asarray(o.to_stacked_vector(), dtype=float) for lst in newops for o in lst] + [np.zeros(0)])
-    st_m = fr(mdl.call("c03.set_from_var_total", desc, sds + fr(v)))
-    ctx.count("setq", key=(case["seed"], "regen"), nontrivial=nops >= 2, label="set_from_var_total")
-    if [len(x) for x in newops] != [len(x) for x in objs]:
-        viol("set_qoperations_from_var_total", "regrouping", "number of operations per kind changed")
-    if not close(st_new, st_m):
-        viol("set_qoperations_from_var_total", "model-mismatch", "regenerated operations differ from the model")
-    if not np.array_equal(np.asarray(new.var_total(), dtype=float), v):
-        viol("set_qoperations_from_var_total", "roundtrip-var", "var_total of the regenerated set is not the vector it was generated from")
-    if [[(int(o.dim), bool(o.on_para_eq_constraint), len(o.to_var())) for o in lst] for lst in newops] != [[(int(o.dim), bool(o.on_para_eq_constraint), len(o.to_var())) for o in lst] for lst in objs]:
-        viol("set_qoperations_from_var_total", "configuration-changed", "dimension / flag / number of variables of an operation changed")
-    else:
-        again = sq.set_qoperations_from_var_total(vt)
-        st_again = np.concatenate([np.asarray(o.to_stacked_vector(), dtype=float) for lst in (again.states, again.gates, again.povms, again.mprocesses) for o in lst] + [np.zeros(0)])
-        exp = np.concatenate([ref_reimplied(ty, d, m, bool(flag), np.asarray(o.to_stacked_vector(), dtype=float)) for ty, (grp, lst) in enumerate(zip(groups, objs)) for (d, m, flag), o in zip(grp, lst)] + [np.zeros(0)])
-        if not close(st_again, exp):
-            viol("set_qoperations_from_var_total", "roundtrip-obj", "set -> var_total -> set changes more than the implied components")
-    for L in (total + 1, total - 1):
-        if L < 0:
-            continue
+                impl = "IndexError"
+            except UnboundLocalError:
+                impl = "UnboundLocalError"
+            stt, val = mdl.try_call("c03.local_from_total", [t] + blocks)
+            ctx.count(sub, key=key0 + ("oor", t), nontrivial=False, label="total-out-of-range")
+            if not (impl == "IndexError" and stt == "err" and val == 3):
+                viol("local_info_from_index_var_total", "error-branch", "t=%d (%d variables): impl %s model %s %s" % (t, total, impl, stt, val))
+        for k in range(4):
+            for i in (len(sizes[k]), len(sizes[k]) + 1, -1):
+                try:
+                    t = int(sq.index_var_total_from_local_info(NAMES[k], i, 0)); impl = ("ok", t)
+                except IndexError:
+                    impl = ("err", None)
+                stt, val = mdl.try_call("c03.total_from_local", [k, i, 0] + blocks)
+                ctx.count(sub, key=key0 + ("oor-op", k, i), nontrivial=False, label="operation-index-out-of-range-" + stt)
+                if (stt == "err") != (impl[0] == "err") or (stt == "ok" and int(val[0]) != impl[1]):
+                    viol("index_var_total_from_local_info", "error-branch", "(%s,%d,0): impl %s model %s %s" % (NAMES[k], i, impl, stt, val))
         try:
-            sq.set_qoperations_from_var_total(np.array(rand_vals(rng, L))); impl = "ok"
+            sq.index_var_total_from_local_info("effective_lindbladian", 0, 0)
+            viol("index_var_total_from_local_info", "error-branch", "unsupported mode accepted")
         except ValueError:
-            impl = "ValueError"
-        stt, val = mdl.try_call("c03.set_from_var_total", desc, sds + rand_vals(rng, L))
-        ctx.count("setq", key=(case["seed"], "badlen", L), nontrivial=False, label="set_from_var_total-badlen")
-        if not (impl == "ValueError" and stt == "err"):
-            viol("set_qoperations_from_var_total", "error-branch", "length %d instead of %d: impl %s model %s" % (L, total, impl, stt))
+            pass
+
+    def ph_regen():
+        sds = [float(np.sqrt(x)) for x in (2, 3, 4, 6)]
+        v = np.array(rand_vals(rng, total))
+        try:
+            new = sq.set_qoperations_from_var_total(v)
+        except (ValueError, IndexError) as e:
+            viol("set_qoperations_from_var_total", "raises-on-right-length", "a vector with the %d variables of the current contents raises %s" % (total, type(e).__name__)); return
+        newops = [new.states, new.gates, new.povms, new.mprocesses]
+        st_new = np.concatenate([np.asarray(o.to_stacked_vector(), dtype=float) for lst in newops for o in lst] + [np.zeros(0)])
+        st_m = fr(mdl.call("c03.set_from_var_total", desc, sds + fr(v)))
+        ctx.count(sub, key=key0 + ("regen",), nontrivial=nops >= 2, label="set_from_var_total")
+        if [len(x) for x in newops] != [len(x) for x in objs]:
+            viol("set_qoperations_from_var_total", "regrouping", "number of operations per kind changed")
+        if not close(st_new, st_m):
+            viol("set_qoperations_from_var_total", "model-mismatch", "regenerated operations differ from the model")
+        if not np.array_equal(np.asarray(new.var_total(), dtype=float), v):
+            viol("set_qoperations_from_var_total", "roundtrip-var", "var_total of the regenerated set is not the vector it was generated from")
+        if [[(int(o.dim), bool(o.on_para_eq_constraint), len(o.to_var())) for o in lst] for lst in newops] != [[(d, bool(flag), nvars(ty, d, m, bool(flag))) for d, m, flag in grp] for ty, grp in enumerate(groups)]:
+            viol("set_qoperations_from_var_total", "configuration-changed", "dimension / flag / number of variables of an operation changed")
+        else:
+            again = sq.set_qoperations_from_var_total(evt)
+            st_again = np.concatenate([np.asarray(o.to_stacked_vector(), dtype=float) for lst in (again.states, again.gates, again.povms, again.mprocesses) for o in lst] + [np.zeros(0)])
+            exp = np.concatenate([ref_reimplied(ty, d, m, bool(flag), np.asarray(o.to_stacked_vector(), dtype=float)) for ty, (grp, lst) in enumerate(zip(groups, objs)) for (d, m, flag), o in zip(grp, lst)] + [np.zeros(0)])
+            if not close(st_again, exp):
+                viol("set_qoperations_from_var_total", "roundtrip-obj", "set -> var_total -> set changes more than the implied components")
+        for L in (total + 1, total - 1):
+            if L < 0:
+                continue
+            try:
+                sq.set_qoperations_from_var_total(np.array(rand_vals(rng, L))); impl = "ok"
+            except ValueError:
+                impl = "ValueError"
+            stt, val = mdl.try_call("c03.set_from_var_total", desc, sds + rand_vals(rng, L))
+            ctx.count(sub, key=key0 + ("badlen", L), nontrivial=False, label="set_from_var_total-badlen")
+            if not (impl == "ValueError" and stt == "err"):
+                viol("set_qoperations_from_var_total", "error-branch", "length %d instead of %d: impl %s model %s" % (L, total, impl, stt))
+
+    phases = {"sizes": ph_sizes, "t2l": ph_t2l, "l2t": ph_l2t, "err": ph_err, "regen": ph_regen}
+    for name in (order or ["sizes", "t2l", "l2t", "err", "regen"]):
+        phases[name]()
+
+
+def chk_setq(ctx, case):
+    from quara.objects.qoperations import SetQOperations
+    rng = random.Random(case["seed"])
+    groups = case["ops"]             # four lists (state, gate, povm, mprocess) of [d, m, flag]
+    objs = build_ops(rng, groups)
+    sq = SetQOperations(states=list(objs[0]), gates=list(objs[1]), povms=list(objs[2]), mprocesses=list(objs[3]))
+    verify_set(ctx, "setq", sq, groups, objs, rng, dict(case))
+
+
+# ---- histories: query -> edit the set through its setters / in place -> query again, several rounds
+SETTERS = ["states", "gates", "povms", "mprocesses"]
+
+
+def apply_step(sq, groups, objs, step, rng):
+    """apply one edit to the real set AND to the harness's own record (lists are never shared between the two)"""
+    act = step["act"]
+    if act == "none":
+        return
+    if act == "set":                              # public setter(s): whole list(s) replaced
+        for ks, grp in sorted(step["new"].items()):
+            k = int(ks)
+            new = build_ops(rng, [grp if t == k else [] for t in range(4)])[k]
+            setattr(sq, SETTERS[k], list(new))
+            groups[k] = [list(x) for x in grp]; objs[k] = new
+        return
+    k = step["k"]
+    live = getattr(sq, SETTERS[k])                # the list the property hands out
+    if act in ("item", "append", "insert"):
+        o = build_ops(rng, [[step["new"]] if t == k else [] for t in range(4)])[k][0]
+    if act == "item":
+        live[step["i"]] = o; objs[k][step["i"]] = o; groups[k][step["i"]] = list(step["new"])
+    elif act == "append":
+        live.append(o); objs[k].append(o); groups[k].append(list(step["new"]))
+    elif act == "insert":
+        live.insert(step["i"], o); objs[k].insert(step["i"], o); groups[k].insert(step["i"], list(step["new"]))
+    elif act == "pop":
+        live.pop(step["i"]); objs[k].pop(step["i"]); groups[k].pop(step["i"])
+    else:
+        raise AssertionError("unknown step %r" % (act,))
+
+
+def chk_setq_history(ctx, case):
+    from quara.objects.qoperations import SetQOperations
+    rng = random.Random(case["seed"])
+    groups = [[list(x) for x in grp] for grp in case["ops"]]
+    objs = build_ops(rng, groups)
+    sq = SetQOperations(states=list(objs[0]), gates=list(objs[1]), povms=list(objs[2]), mprocesses=list(objs[3]))
+    rep = dict(case)
+    hist = []
+    for r, step in enumerate([{"act": "none"}] + case["steps"]):
+        apply_step(sq, groups, objs, step, rng)
+        hist.append(step["act"] + (str(step.get("k", "")) if step["act"] != "set" else "".join(sorted(step["new"]))))
+        fresh = SetQOperations(states=list(objs[0]), gates=list(objs[1]), povms=list(objs[2]), mprocesses=list(objs[3]))
+        ctx.count("setq_history", key=(case["seed"], r, "step"), nontrivial=False, label="step-" + step["act"] + ("-same-sizes" if step.get("same") else ""))
+        verify_set(ctx, "setq_history", sq, groups, objs, rng, rep, tag=">".join(hist), order=step.get("order"), fresh=fresh)
+
+
+def rand_desc(rng, ty, small=True):
+    r = rng.random()
+    d = 2 if r < 0.75 else 3
+    if ty == 3 and d == 3 and rng.random() < 0.7:
+        d = 2
+    m = rng.randint(2, 4 if d == 2 else 3) if ty >= 2 else 0
+    return [d, m, rng.randint(0, 1)]
+
+
+def other_size_desc(rng, ty, desc):
+    """a descriptor of the same type with a DIFFERENT number of variables"""
+    for _ in range(50):
+        nd = rand_desc(rng, ty)
+        if nvars(ty, *nd) != nvars(ty, *desc):
+            return nd
+    return [desc[0], desc[1], 1 - desc[2]]          # the other parametrisation always differs
+
+
+def gen_history_cases(ctx, count):
+    rng = ctx.rng
+    PH = ["sizes", "t2l", "l2t", "err", "regen"]
+    # two fixed histories: same number of operations, different variable counts, later kinds present; then the same in place
+    cases = [
+        {"ops": [[[2, 0, 1]], [[2, 0, 1]], [[2, 2, 1]], [[2, 2, 1]]], "seed": 7,
+         "steps": [{"act": "set", "new": {"2": [[2, 3, 1]]}, "order": ["t2l", "l2t", "sizes", "err", "regen"]},
+                   {"act": "set", "new": {"0": [[2, 0, 0]]}, "order": ["l2t", "t2l", "regen", "sizes", "err"]}]},
+        {"ops": [[[2, 0, 0], [3, 0, 1]], [[2, 0, 0]], [[2, 3, 0], [2, 2, 1]], [[2, 2, 0]]], "seed": 8,
+         "steps": [{"act": "item", "k": 2, "i": 0, "new": [3, 2, 1], "order": ["t2l", "l2t", "sizes", "err", "regen"]},
+                   {"act": "item", "k": 0, "i": 1, "new": [3, 0, 0], "order": ["l2t", "sizes", "t2l", "regen", "err"]},
+                   {"act": "pop", "k": 1, "i": 0, "order": ["t2l", "err", "l2t", "sizes", "regen"]},
+                   {"act": "append", "k": 1, "new": [2, 0, 1], "order": ["regen", "l2t", "t2l", "sizes", "err"]}]},
+    ]
+    for _ in range(count):
+        groups = [[rand_desc(rng, ty) for _ in range(rng.randint(0, 2))] for ty in range(4)]
+        if sum(len(g) for g in groups) < 2:
+            groups[0].append(rand_desc(rng, 0)); groups[3].append(rand_desc(rng, 3))
+        cur = [[list(x) for x in g] for g in groups]
+        steps = []
+        for _ in range(rng.randint(2, 4) if ctx.quick else rng.randint(3, 7)):
+            r = rng.random()
+            k = rng.randrange(4)
+            order = rng.sample(PH, len(PH))
+            if r < 0.08:
+                st = {"act": "none"}
+            elif r < 0.5 or not cur[k]:
+                # setter; same count with changed sizes (the stale-cache class), same count same sizes, or another count; sometimes two kinds at once
+                new = {}
+                for kk in set([k] + ([rng.randrange(4)] if rng.random() < 0.25 else [])):
+                    mode = rng.random()
+                    if cur[kk] and mode < 0.5:
+                        grp = [other_size_desc(rng, kk, x) if rng.random() < 0.7 else list(x) for x in cur[kk]]
+                    elif cur[kk] and mode < 0.7:
+                        grp = [list(x) for x in cur[kk]]
+                    else:
+                        grp = [rand_desc(rng, kk) for _ in range(rng.randint(0, 2))]
+                    new[str(kk)] = grp
+                    cur[kk] = [list(x) for x in grp]
+                st = {"act": "set", "new": new}
+            elif r < 0.75:
+                i = rng.randrange(len(cur[k]))
+                nd = other_size_desc(rng, k, cur[k][i]) if rng.random() < 0.75 else list(cur[k][i])
+                st = {"act": "item", "k": k, "i": i, "new": nd}
+                if nvars(k, *nd) == nvars(k, *cur[k][i]):
+                    st["same"] = 1
+                cur[k][i] = nd
+            elif r < 0.85 and len(cur[k]) < 3:
+                nd = rand_desc(rng, k); i = rng.randint(0, len(cur[k]))
+                st = {"act": "insert", "k": k, "i": i, "new": nd}; cur[k].insert(i, nd)
+            elif r < 0.92 and len(cur[k]) < 3:
+                nd = rand_desc(rng, k)
+                st = {"act": "append", "k": k, "new": nd}; cur[k].append(nd)
+            else:
+                i = rng.randrange(len(cur[k]))
+                st = {"act": "pop", "k": k, "i": i}; cur[k].pop(i)
+            st["order"] = order
+            steps.append(st)
+        cases.append({"ops": groups, "seed": rng.randrange(10 ** 9), "steps": steps})
+    return cases
+
+
+def sub_setq_history(ctx):
+    cases = gen_history_cases(ctx, ctx.n(10, 150))
+    ctx.sample("setq_history", cases[0]); ctx.sample("setq_history", cases[2])
+    ctx.run_cases("setq_history", chk_setq_history, cases)
+    ctx.note("setq_history: %d histories (query everything -> edit through a setter or in the list the property returns -> query everything again in a shuffled order, "
+             "2-7 rounds); expectations come from the harness's own record of the current contents, the Coq model on the current sizes and a newly constructed set" % len(cases))
 
 
 def gen_setq_cases(ctx, count):
@@ -821,8 +1015,8 @@ def sub_tomography(ctx):
     ctx.run_cases("tomography", chk_tomography, cases)
 
 
-SUBS = [("index_maps", sub_index_maps), ("index_wide", sub_index_wide), ("objects", sub_objects), ("setq", sub_setq), ("tomography", sub_tomography)]
-FNS = {"index_maps": chk_index, "index_wide": chk_index_wide, "objects": chk_object, "setq": chk_setq, "tomography": chk_tomography}
+SUBS = [("index_maps", sub_index_maps), ("index_wide", sub_index_wide), ("objects", sub_objects), ("setq", sub_setq), ("setq_history", sub_setq_history), ("tomography", sub_tomography)]
+FNS = {"index_maps": chk_index, "index_wide": chk_index_wide, "objects": chk_object, "setq": chk_setq, "setq_history": chk_setq_history, "tomography": chk_tomography}
 
 
 def run(ctx):
@@ -834,6 +1028,9 @@ def run(ctx):
                 "outcome shapes) through to_var, generate_from_var (own flag and the override flag), the module-level convert_* functions, the static stacked<->var conversions, "
                 "calc_gradient (in and out of range) and malformed variable lengths; SetQOperations: random mixes of 0-3 (thorough: up to 6) "
                 "operations per kind with mixed dimensions / flags / outcome counts, every total index and every (kind, operation, local index); "
+                "setq_history: 12 (152) histories of 2-7 rounds on one object: all queries, then an edit (setter for one or two kinds, item assignment, insert, append, pop "
+                "on the list the property returns; same count with changed variable counts, same sizes, other counts), then all queries again in a shuffled order, expectations from the "
+                "harness's own record of the current contents, the model on the current sizes and a newly constructed set; "
                 "tomography: all four standard classes on typical testers. Every property predicate is evaluated on the implementation's outputs with independent numpy code "
                 "AND the outputs are compared with the extracted Coq model. non-trivial = more than half of the entries non-zero (objects), at least two "
                 "operations (sets); distinct = distinct (type, d, m, flag, seed/index)")
